@@ -73,6 +73,10 @@ class Check:
         world["nodes"].append({"path": top + "/to_big", "type": "symlink", "target": "big.bin"})
         world["nodes"].append({"path": top + "/to_self_dir", "type": "symlink", "target": "."})
         world["nodes"].append({"path": top + "/to_nothing", "type": "symlink", "target": "no/such/thing"})
+        world["nodes"].append({"path": top + "/hollow", "type": "dir"})
+        world["nodes"].append({"path": top + "/to_hollow", "type": "symlink", "target": "hollow"})
+        world["nodes"].append({"path": top + "/to_empty_file", "type": "symlink", "target": "zero.dat"})
+        world["nodes"].append({"path": top + "/zero.dat", "type": "file", "content": ""})
         _, plan = gen.gen_env(rng, world)
         users = {str(u): n for u, n in rng.sample([(0, "root"), (5, "games"), (1000, "alice"), (1001, "bob smith"), (65534, "nobody")], 3)}
         groups = {str(g): n for g, n in rng.sample([(0, "root"), (5, "tty"), (100, "users"), (1000, "staff")], 2)}
@@ -286,7 +290,8 @@ class Check:
                     want["created"] = datetime.datetime.fromtimestamp(ov["btime"] // 10 ** 9, tz).strftime("%Y-%m-%d %H:%M:%S")
                 if statmod.S_ISDIR(st.st_mode):
                     want["is_empty"] = "true" if not os.listdir(os.path.join(sb.root, path)) else "false"
-                elif not statmod.S_ISLNK(st.st_mode):
+                else:
+                    # a link's own content size is the length of its target text (lstat), whatever it points to
                     want["is_empty"] = "true" if ov.get("size", st.st_size) == 0 else "false"
                 for k, w in want.items():
                     if got[k] != w:
